@@ -206,6 +206,9 @@ def examine(prop, head, labels, g):
                 mv, small, il = mv2, small2, il2
                 rcm, outm = K.run_model(K.one_history_text(head, small2))
                 ml = K.parse_blocks(outm).get(head.split()[1]) or []
+    if not mv and incone and prop == "C18" and isinstance(i2, int) and 0 <= i2 < len(small) and i2 < len(il) and i2 < len(ml):
+        # C18's statement is the comparison itself: the call returns something else than the reference returns
+        mv = ["call %d (%s) returned `%s` where the queue-plus-waiting-list reference returns `%s`" % (i2, small[i2], il[i2], ml[i2])]
     if mv:
         return key, {"witness": True, "header": head, "calls": small, "implementation": il, "model": ml,
                      "monitor": mv, "suite": "H1"}
@@ -391,10 +394,15 @@ def run_ptrsearch(prop, tier, seed, report):
                 got = re.sub(r"\s|%N", "", results[i])
                 want = "Some[" + ";".join(str(k + 1) for k in range(sz)) + "]"
                 if got != want:
-                    viols.append({"witness": True, "suite": "model", "header": "size_of::<T>() = %d, path: %s" % (sz, name),
+                    # a counterexample of the *translated model*: it is a failing input of the code only if the translator
+                    # followed the code; it is reported as a lead, the implementation-side suites (H1 / H2 with the payload
+                    # class of that size) decide whether the crate itself fails
+                    viols.append({"witness": False, "suite": "model", "header": "size_of::<T>() = %d, path: %s" % (sz, name),
                                   "calls": ["bytes sent: %s" % want[4:]],
-                                  "monitor": ["with the size dispatch of the current source the byte-level model yields %s instead of the bytes sent "
-                                              "(None: an uninitialised word/cell is read or an unreachable leaf is reached)" % got]})
+                                  "broken": "model-side counterexample, not confirmed on the implementation: with the size dispatch "
+                                            "translated from the current source the byte-level model yields %s instead of the bytes sent at "
+                                            "size_of::<T>() = %d on the path %s (None: an uninitialised word/cell is read or an unreachable "
+                                            "leaf is reached)" % (got, sz, name)})
             i += 1
     report["ptrsearch"] = {"cases": i, "failing": len(viols)}
     return viols[:2]
@@ -518,6 +526,8 @@ def run_check(prop, tier, seed):
         # prefer a concrete witness
         real.sort(key=lambda v: (not v.get("witness"),))
         v = real[0]
+        if not v.get("witness") and len(real) > 1:
+            v = dict(v, other_findings=[x.get("broken", "") for x in real[1:] if x.get("broken")][:6])
         path = K.write_replay(prop, {"H1": "h1", "H2": "h2"}.get(v.get("suite"), "obligation"), v)
         tail = "" if v.get("witness") else " no-failing-input-found"
         if v.get("witness"):
